@@ -424,4 +424,40 @@ theorem mem_rsOf {F : Frame} {ub : List Int} {u : Int} {c : TS} :
     refine ⟨_, i, slicesOf_getElem? F ub i hi, u, j, ?_, rfl, rfl⟩
     rw [List.getElem?_take, if_pos hj, List.getElem?_drop]; exact huj
 
+theorem rows_ext {α} {a b : Rows α} (ha : a.Pairwise (fun x y => x.1 < y.1)) (hb : b.Pairwise (fun x y => x.1 < y.1))
+    (h : ∀ x, x ∈ a ↔ x ∈ b) : a = b := by
+  have na : a.Nodup := ha.imp (by intro x y hxy he; rw [he] at hxy; omega)
+  have nb : b.Nodup := hb.imp (by intro x y hxy he; rw [he] at hxy; omega)
+  exact List.Perm.eq_of_pairwise (le := fun x y => x.1 < y.1) (by intro x y _ _ h1 h2; omega) ha hb
+    ((List.perm_ext_iff_of_nodup na nb).mpr h)
+
+theorem dedupSort_sorted (l : List Int) : ((l.eraseDups).mergeSort (fun a b => decide (a ≤ b))).Pairwise (· < ·) := by
+  have nd : ((l.eraseDups).mergeSort (fun a b => decide (a ≤ b))).Nodup :=
+    (List.mergeSort_perm _ _).nodup_iff.mpr (Bitemp.nodup_eraseDups _)
+  have h1 : ((l.eraseDups).mergeSort (fun a b => decide (a ≤ b))).Pairwise (fun a b => decide (a ≤ b) = true) :=
+    List.pairwise_mergeSort (by intro a b c; simp only [decide_eq_true_eq]; omega)
+      (by intro a b; simp only [Bool.or_eq_true, decide_eq_true_eq]; omega) _
+  exact (h1.and nd).imp (by intro a b ⟨h, h'⟩; simp only [decide_eq_true_eq] at h; omega)
+
+theorem mem_dedupSort {l : List Int} {x : Int} : x ∈ (l.eraseDups).mergeSort (fun a b => decide (a ≤ b)) ↔ x ∈ l := by
+  simp [List.mem_mergeSort, List.mem_eraseDups]
+
+theorem getElem_inj_of_sorted {ub : List Int} (h : ub.Pairwise (· < ·)) {a b : Nat} (ha : a < ub.length) (hb : b < ub.length)
+    (e : ub[a] = ub[b]) : a = b := by
+  rcases Nat.lt_trichotomy a b with hlt | heq | hgt
+  · have := (List.pairwise_iff_getElem.mp h) a b ha hb hlt; omega
+  · exact heq
+  · have := (List.pairwise_iff_getElem.mp h) b a hb ha hgt; omega
+
+theorem framesOf_rows_sorted_cols (dfs : List TS) (n : Nat) (hn : 1 < n) :
+    ∀ f ∈ framesOf dfs n, f.rows.Pairwise (fun a b => a.1 < b.1) := by
+  intro f hf
+  simp only [framesOf, hn, if_true, List.mem_map] at hf
+  obtain ⟨i, _, rfl⟩ := hf
+  exact concatCols_sorted _
+
+theorem framesOf_getElem_cols (dfs : List TS) (n : Nat) (hn : 1 < n) (i : Nat) (hi : i < (framesOf dfs n).length) :
+    (framesOf dfs n)[i] = ⟨((dfs.drop i).take n).length, concatCols ((dfs.drop i).take n)⟩ := by
+  simp [framesOf, hn]
+
 end Pyg.Slice
